@@ -409,11 +409,176 @@ func opKind(desc string) string {
 	return desc
 }
 
+// ---- cold start: the very first calls of a fresh process arrive concurrently ----
+// (lazily initialised package state is only observable before any call has completed alone, so this part
+// neither builds a table through the library nor makes a sequential pass first; every expected value comes
+// from the reference models)
+
+type c11Cold struct {
+	G    int    `json:"goroutines"`
+	Ops  int    `json:"ops_per_goroutine"`
+	Seed uint64 `json:"seed"`
+}
+
+func coldOps(rng *gen.RNG) []c11Op {
+	var ops []c11Op
+	key := rng.Bytes(20)
+	sec := ref.Base32Encode(key)
+	for i, n := range []string{"SHA1", "SHA256", "SHA512", "sha256", "MD5", ""} {
+		n, want := n, restAlgo(n)
+		_ = i
+		ops = append(ops, c11Op{desc: "AlgorithmFromStr(" + n + ")", want: fmt.Sprint(want), exec: func() string { return fmt.Sprint(int(otp.AlgorithmFromStr(n))) }})
+	}
+	for a := 0; a < 4; a++ {
+		a := a
+		want := ""
+		if a < 3 {
+			want = algoName(a)
+		}
+		ops = append(ops, c11Op{desc: fmt.Sprintf("Algorithm(%d).String", a), want: want, exec: func() string { return otp.Algorithm(a).String() }})
+	}
+	for _, d := range []string{"6", "8", "9", "10", "7", ""} {
+		d := d
+		ops = append(ops, c11Op{desc: "DigitsFromStr(" + d + ")", want: fmt.Sprint(restDigits(d)), exec: func() string { return fmt.Sprint(otp.DigitsFromStr(d).Int()) }})
+	}
+	for i, alg := range []string{"SHA1", "SHA256", "SHA512", "sha512", "Sha256"} {
+		text := fmt.Sprintf("otpauth://totp/Iss:acc%d?secret=%s&algorithm=%s&digits=8&period=45", i, sec, alg)
+		want := fmt.Sprintf("Iss/acc%d/%s/8/%d/45", i, sec, restAlgo(strings.ToUpper(alg)))
+		ops = append(ops, c11Op{desc: "ParseOTPAuthURL(algorithm=" + alg + ")", want: want, exec: func() string {
+			u, err := url.Parse(text)
+			if err != nil {
+				return "ERR"
+			}
+			p, err := otp.ParseOTPAuthURL(u)
+			if err != nil {
+				return "ERR"
+			}
+			return fmt.Sprintf("%s/%s/%s/%d/%d/%d", p.Issuer, p.AccountName, p.Secret, p.Digits, p.Algorithm, p.Period)
+		}})
+	}
+	names := append([]string{}, registeredNames[:6]...)
+	names = append(names, "OCRA-1:HOTP-SHA256-7:C-QN10-PSHA1-S064-T5M", "OCRA-1:hotp-sha512-9:qn08", "OCRA-1:HOTP-SHA512-9:QN08", "OCRA-2:HOTP-SHA1-6:QN08", "OCRA-1:HOTP-SHA384-6:QN08")
+	for _, n := range names {
+		n := n
+		want := "ERR"
+		m, ok := ref.ParseSuiteNameFold(n)
+		if ok && ref.SuiteUsable(m) {
+			want = fmt.Sprintf("%+v", m)
+		}
+		ops = append(ops, c11Op{desc: "NewRawSuite(" + n + ")", want: want, exec: func() string {
+			s, err := otp.NewRawSuite(n)
+			if err != nil {
+				return "ERR"
+			}
+			return fmt.Sprintf("%+v", fromCfg(s.Config()))
+		}})
+		if ok && ref.SuiteUsable(m) {
+			in := admissibleInput(rng, m, 3)
+			oin := toOCRAInput(in)
+			wantC := ref.OCRA(key, m, in)
+			ops = append(ops, c11Op{desc: "NewRawSuite+GenerateOCRA(" + n + ")", want: wantC, code: true, exec: func() string {
+				s, err := otp.NewRawSuite(n)
+				if err != nil {
+					return "ERR"
+				}
+				return resStr(otp.GenerateOCRA(sec, s, oin))
+			}})
+		}
+	}
+	for i := 0; i < 12; i++ {
+		ctr := uint64(i * 977)
+		d, a := 6+i%5, i%3
+		p := &otp.Param{Digits: otp.Digits(d), Algorithm: otp.Algorithm(a), Period: 30, Skew: 1}
+		wantH := ref.HOTP(key, ctr, d, a)
+		ops = append(ops, c11Op{desc: fmt.Sprintf("GenerateHOTP#%d", i), want: wantH, code: true, exec: func() string { return resStr(otp.GenerateHOTP(sec, ctr, p)) }})
+		ops = append(ops, c11Op{desc: fmt.Sprintf("ValidateHOTP#%d", i), want: "true", exec: func() string { ok, _ := otp.ValidateHOTP(sec, wantH, ctr, p); return fmt.Sprint(ok) }})
+		t := time.Unix(1700000000+int64(i)*31, 0)
+		wantT := ref.TOTP(key, t.Unix(), 30, d, a)
+		ops = append(ops, c11Op{desc: fmt.Sprintf("GenerateTOTP#%d", i), want: wantT, code: true, exec: func() string { return resStr(otp.GenerateTOTP(sec, t, p)) }})
+	}
+	ops = append(ops, c11Op{desc: "GenerateTOTP(nil)", want: ref.TOTP(key, 1700000000, 30, 6, 0), code: true, exec: func() string { return resStr(otp.GenerateTOTP(sec, time.Unix(1700000000, 0), nil)) }})
+	ops = append(ops, c11Op{desc: "GenerateHOTP(nil)", want: ref.HOTP(key, 5, 6, 0), code: true, exec: func() string { return resStr(otp.GenerateHOTP(sec, 5, nil)) }})
+	ops = append(ops, c11Op{desc: "DecodeSecret", want: hexs(key), exec: func() string {
+		b, err := otp.DecodeSecret(" " + strings.ToLower(sec) + "\n")
+		if err != nil {
+			return "ERR"
+		}
+		return hexs(b)
+	}})
+	if q, ok := ref.QuestionToBytes("12345678"); ok {
+		ops = append(ops, c11Op{desc: "ParseDecimalChallengeRFC6287", want: hexs(q), exec: func() string {
+			b, err := otp.ParseDecimalChallengeRFC6287("12345678")
+			if err != nil {
+				return "ERR"
+			}
+			return hexs(b)
+		}})
+	}
+	ops = append(ops, c11Op{desc: "ListSuites", want: fmt.Sprint(len(registeredNames)), exec: func() string { return fmt.Sprint(len(otp.ListSuites())) }})
+	ops = append(ops, c11Op{desc: "RandomSecret", want: "52", exec: func() string {
+		s, err := otp.RandomSecret(otp.SHA256)
+		if err != nil {
+			return "ERR"
+		}
+		return fmt.Sprint(len(s))
+	}})
+	ops = append(ops, c11Op{desc: "GenerateTOTPURL", want: "totp/Iss/acc/" + sec + "/6/SHA1/30", exec: func() string {
+		u, err := otp.GenerateTOTPURL(otp.URLParam{Issuer: "Iss", AccountName: "acc", Secret: sec})
+		if err != nil {
+			return "ERR"
+		}
+		o, perr := ref.ParseOTPAuth(u.String())
+		if perr != nil {
+			return "ERR"
+		}
+		return o.Type + "/" + o.Issuer + "/" + o.Account + "/" + o.Query["secret"] + "/" + o.Query["digits"] + "/" + o.Query["algorithm"] + "/" + o.Query["period"]
+	}})
+	return ops
+}
+
+func runC11Cold(c *Ctx, cfg c11Cold) {
+	r := c.R
+	ops := coldOps(gen.New(cfg.Seed)) // builds closures only: no library call has been made in this process yet
+	start := make(chan struct{})
+	var wg sync.WaitGroup
+	var mism atomic.Int64
+	for g := 0; g < cfg.G; g++ {
+		wg.Add(1)
+		go func(g int) {
+			defer wg.Done()
+			x := cfg.Seed*2654435761 + uint64(g)*40503 + 1
+			<-start
+			for i := 0; i < cfg.Ops; i++ {
+				x ^= x << 13
+				x ^= x >> 7
+				x ^= x << 17
+				op := &ops[x%uint64(len(ops))]
+				var got string
+				pan := monCatch(func() { got = op.exec() })
+				if pan != nil || got != op.want {
+					if mism.Add(1) <= 5 {
+						r.Violate("C11|cold-start|differs-from-reference|"+opKind(op.desc), "among the first, concurrent calls of a fresh process a result differs from what the call returns alone", "c11cold", cfg, op.want, fmt.Sprintf("%s on goroutine %d (call %d): %q panic=%v", op.desc, g, i, got, pan))
+					}
+				}
+			}
+		}(g)
+	}
+	close(start)
+	wg.Wait()
+	r.Eval(cfg.G * cfg.Ops)
+	r.Count("cold_start_results_compared", cfg.G*cfg.Ops)
+	r.Count("cold_start_processes", 1)
+	r.Nontrivial(fmt.Sprintf("cold|%d|%d", cfg.G, cfg.Seed))
+}
+
 func c11Configs(c *Ctx) []c11Config {
 	rng := c.RNG.Fork(11)
 	var out []c11Config
 	mk := func(g, p int, y, a, gc bool, rep int) {
 		ops := 20000 * 4 / (g + 3)
+		if c.Thorough {
+			ops *= 4
+		}
 		if ops < 600 {
 			ops = 600
 		}
@@ -440,6 +605,11 @@ func c11Configs(c *Ctx) []c11Config {
 }
 
 func init() {
+	childParts["C11/cold"] = func(c *Ctx, arg json.RawMessage) {
+		var cfg c11Cold
+		json.Unmarshal(arg, &cfg)
+		runC11Cold(c, cfg)
+	}
 	childParts["C11/config"] = func(c *Ctx, arg json.RawMessage) {
 		var cfg c11Config
 		json.Unmarshal(arg, &cfg)
@@ -468,6 +638,25 @@ func init() {
 					c.R.Violate("C11|concurrent|process-fatal|", "the concurrent workload ends the process with a fatal error (e.g. concurrent map access, checkptr)", "c11", cfgs[i], "clean exit", res.Output)
 				}
 			}
+			// cold starts: fresh -race processes whose first library calls are concurrent
+			rngCold := c.RNG.Fork(1111)
+			var colds []c11Cold
+			for i := 0; i < c.N(6, 40); i++ {
+				colds = append(colds, c11Cold{G: []int{4, 16, 64}[i%3], Ops: 40, Seed: rngCold.U64()})
+			}
+			coldRes := make([]*childResult, len(colds))
+			monParallel(len(colds), par, func(i int) {
+				coldRes[i] = runChildPart(c, "VERIF_RACE_BIN", "cold", colds[i], 5*time.Minute)
+			})
+			for i, res := range coldRes {
+				if res == nil || !res.Ran {
+					continue
+				}
+				judgeRaceReports(c, res, "c11cold", colds[i])
+				if res.ExitErr != nil && !res.TimedOut {
+					c.R.Violate("C11|cold-start|process-fatal|", "the first concurrent calls of a fresh process end it with a fatal error (e.g. concurrent map writes)", "c11cold", colds[i], "clean exit", res.Output)
+				}
+			}
 			// thorough: the same table under the address sanitizer (no race detector), one configuration
 			if c.Thorough {
 				cfg := c11Config{G: 16, P: 8, Ops: 4000, Yield: true, Adversary: true, GC: true, Seed: 99}
@@ -478,13 +667,21 @@ func init() {
 			}
 		},
 		Replay: func(c *Ctx, kind string, raw json.RawMessage) error {
-			if kind != "c11" {
-				return fmt.Errorf("kind %q has no single-case replay", kind)
+			switch kind {
+			case "c11":
+				return replayAs(raw, func(cfg c11Config) {
+					res := runChildPart(c, "VERIF_RACE_BIN", "config", cfg, 15*time.Minute)
+					judgeRaceReports(c, res, "c11", cfg)
+				})
+			case "c11cold":
+				return replayAs(raw, func(cfg c11Cold) {
+					for i := 0; i < 5; i++ { // a cold start is one attempt at a racy first call: repeat a few fresh processes
+						res := runChildPart(c, "VERIF_RACE_BIN", "cold", cfg, 5*time.Minute)
+						judgeRaceReports(c, res, "c11cold", cfg)
+					}
+				})
 			}
-			return replayAs(raw, func(cfg c11Config) {
-				res := runChildPart(c, "VERIF_RACE_BIN", "config", cfg, 15*time.Minute)
-				judgeRaceReports(c, res, "c11", cfg)
-			})
+			return fmt.Errorf("kind %q has no single-case replay", kind)
 		},
 	})
 }
